@@ -21,7 +21,7 @@ MANIFEST = dict(
     technique='TLA+ closed data-phase model (TLC; WindowOK counterexample = finding F5) + trace validation of two real stacks with tiny buffers, paced readers, small MTUs and reordered ACKs against the C04 clauses of TraceTcp',
     text='TLC judges every emitted data segment against the maximum right edge offered by ACKs that had arrived (window scaling from the SYN options), the MSS announced by the peer and the MTU, and every emitted ACK against the right edge advertised before (never left, bounded by the receive buffer), over seeded scenarios with receive buffers 1..4096 bytes, readers that start late / read slowly / stop, MTU 68..1500, loss and ACK reordering. Findings F4 (scaled-window rounding) and F5 (stale ACK re-opens the window) are matched by shape. A scripted raw peer (harness/tcprawd, tools/checks/rawpeer.py) replaces one stack in a second set of scenarios: SYN/SYN-ACK with MSS 1..65535 or none, window scale 0..15 or none, windows of 0/1/mss-1/mss/2mss+1 bytes, zero windows re-opened after 5..1300 ms (update sent once or repeated), right edges that move left, scaled windows against an unscaled SYN-ACK window, passive open against a scripted SYN; the same TraceTcp clauses judge the real stack (endpoint b is declared a script: reset.raw_b).',
     design='5 C04',
-    note='maxEdge is the maximum edge EVER offered, so a shrinking peer cannot cause a false alarm. Scripted peers with arbitrary window/MSS option values (WS 14/15, MSS 1/65535, ICMP fragmentation-needed) are not driven yet: both peers are real stacks. The exhaustive TLC part covers the unscaled data-phase model only.')
+    note='maxEdge is the maximum edge EVER offered, so a shrinking peer cannot cause a false alarm. Scripted peers with arbitrary window/MSS option values (WS 14/15, MSS 1/65535, ICMP fragmentation-needed) are not driven yet: both peers are real stacks. The exhaustive TLC part covers the unscaled data-phase model only. Since round 8 the raw peer also opens the real stack passively through SYN cookies (a batch of its own: tcp.SynRcvdCountThreshold = 0 is process-global) with MSS values between the entries of the cookie table.')
 
 SPEC = ['tcp']
 
